@@ -480,6 +480,14 @@ def build_tree(root, case, outside=None):
             ignored += x["pats"] if "pats" in x else ["/" + x["p"]]
         elif k == "dir":
             files[x["p"] + "/.keep"] = ""
+    li = case.get("licignore")
+    if li:
+        # ignore rules that match licence texts below LICENSES/ (which stay untracked): {"pats": [...], "where": "root" | "LICENSES"};
+        # a .gitignore inside LICENSES/ is a hidden name, which the LICENSES/ scan does not list
+        if li["where"] == "root":
+            ignored += li["pats"]
+        else:
+            files["LICENSES/.gitignore"] = "".join("%s\n" % p for p in li["pats"])
     if case.get("git"):
         files[".gitignore"] = "# SPDX-FileCopyrightText: 2001 Holder 0\n# SPDX-License-Identifier: %s\n%s" % (
             case.get("gitignore_lic", "MIT"), "".join("%s\n" % p for p in ignored))
